@@ -122,8 +122,10 @@ fn replay(args: &[String]) -> i32 {
         let skip = ret.starts_with("skip:");
         let mut dead = sess.tree.is_none();
         let readonly = op["op"].as_str() == Some("scan");
+        // (TLC's JSON reader rejects null: an unusable tree is recorded as empty objects; the
+        // line carries the failed / panicked call and ends the behaviour)
         let (st, obs) = if dead {
-            (Value::Null, Value::Null)
+            (json!({}), json!({}))
         } else if readonly {
             (json!({}), json!({}))
         } else {
@@ -134,7 +136,7 @@ fn replay(args: &[String]) -> i32 {
                 Ok(x) => x,
                 Err(_) => {
                     dead = true;
-                    (Value::Null, Value::Null)
+                    (json!({}), json!({}))
                 }
             }
         };
